@@ -180,9 +180,9 @@ def stream_items(tier, seed, want):
             add(g, inp01)
     if 'c02' in want:
         inp02 = inputs_all(6 if tier != 'quick' else 5, gen.C02_ALPHA)
-        its = gen.c02_iterators(gen.C02_ITEMS[:4], gen.C02_SEPS[:2], gen.bounds(3))
+        its = gen.c02_iterators(gen.C02_ITEMS[:4], gen.C02_SEPS[:4], gen.bounds(3))
         rng.shuffle(its)
-        for it in its[:400 if tier == 'quick' else 4000]:
+        for it in its[:500 if tier == 'quick' else 5000]:
             for c in gen.c02_consumers(it):
                 add(c, inp02)
         for g in gen.c02_special():
